@@ -23,7 +23,13 @@ const (
 	LMSS   = "MSS"   // Materialize() of an SS operand
 	LST    = "ST"    // slice of a lazy transpose
 	LTS    = "TS"    // lazy transpose of a slice
+	LFT    = "FT"    // lazy transpose of a column-major base
+	LFS    = "FS"    // unit-step slice of a larger column-major parent
+	LFSS   = "FSS"   // stepped slice of a larger column-major parent
 )
+
+// ColViewLayouts are the views over column-major storage (C16).
+var ColViewLayouts = []string{LFT, LFS, LFSS}
 
 var AllLayouts = []string{LC, LF, LFconv, LT, LS, LSS, LMT, LMS, LMSS, LST, LTS}
 
@@ -295,6 +301,51 @@ func (op *Operand) build(m *model.ND, layout string, rng *rand.Rand) error {
 			}
 			op.Off[r] = model.Rank(base.Shape, bc)
 		})
+	case LFT:
+		if rank < 2 || len(m.V) < 2 {
+			return degrade()
+		}
+		p := pickPerm(rank, rng)
+		base := model.Permute(m, inv(p))
+		b := model.MakeSlice(t, model.ColMajorSeq(base))
+		d := tensor.New(op.consOpts(tensor.WithShape(base.Shape...), tensor.AsFortran(nil), tensor.WithBacking(b))...)
+		if err := d.T(p...); err != nil {
+			return err
+		}
+		op.D, op.Root, op.Backing = d, d, b
+		op.Recipe["perm"] = p
+		op.Off = make([]int, len(m.V))
+		bc := make([]int, rank)
+		model.Each(m.Shape, func(c []int, r int) {
+			for i := range p {
+				bc[p[i]] = c[i]
+			}
+			op.Off[r] = model.RankCol(base.Shape, bc)
+		})
+	case LFS, LFSS:
+		if rank < 2 || len(m.V) < 2 {
+			return degrade()
+		}
+		mg, ok := pickMargins(m.Shape, layout == LFSS, rng)
+		if !ok {
+			return degrade()
+		}
+		pshape, pvals, specs, mspecs, off := parentOf(m, mg, rng.Int63())
+		pm := model.New(t, pshape, pvals)
+		b := model.MakeSlice(t, model.ColMajorSeq(pm))
+		parent := tensor.New(op.consOpts(tensor.WithShape(pshape...), tensor.AsFortran(nil), tensor.WithBacking(b))...)
+		v, err := parent.Slice(specs...)
+		if err != nil {
+			return err
+		}
+		op.D, op.Root, op.Backing = v.(*tensor.Dense), parent, b
+		op.keep = append(op.keep, parent)
+		op.Recipe["parent"] = pshape
+		op.Recipe["slices"] = specStrings(mspecs)
+		op.Off = make([]int, len(off))
+		for r := range off {
+			op.Off[r] = model.RankCol(pshape, model.Unrank(pshape, off[r]))
+		}
 	case LS, LSS:
 		if rank < 1 || len(m.V) < 2 {
 			return degrade()
@@ -557,11 +608,27 @@ func MetaOf(d *tensor.Dense) Meta {
 }
 
 // Diff describes the first difference between two metadata snapshots ("" if none).
+// stridesEq compares strides on the axes where they take part in addressing (extent > 1).
+func stridesEq(shape, a, b []int) bool {
+	if len(a) != len(b) {
+		return false
+	}
+	if len(shape) != len(a) {
+		return ShapeEq(a, b)
+	}
+	for i := range a {
+		if a[i] != b[i] && shape[i] != 1 {
+			return false
+		}
+	}
+	return true
+}
+
 func (a Meta) Diff(b Meta) string {
 	switch {
 	case !ShapeEq(a.Shape, b.Shape):
 		return fmt.Sprintf("shape %v -> %v", a.Shape, b.Shape)
-	case !ShapeEq(a.Strides, b.Strides):
+	case !stridesEq(a.Shape, a.Strides, b.Strides):
 		return fmt.Sprintf("strides %v -> %v", a.Strides, b.Strides)
 	case a.Order != b.Order:
 		return fmt.Sprintf("order %v -> %v", a.Order, b.Order)
